@@ -1129,6 +1129,8 @@ class Chemical:
     @Tm.setter
     def Tm(self, Tm):
         reset_constant(self, 'Tm', float(Tm))
+        # The entropy of fusion follows the melting point (as in `_init_data`)
+        if self._Hfus is not None and self._Tm: self._Sfus = self._Hfus / self._Tm
         self.reset_free_energies()
     
     @property
@@ -1187,6 +1189,8 @@ class Chemical:
     @Hfus.setter
     def Hfus(self, Hfus):
         reset_energy_constant(self, 'Hfus', float(Hfus))
+        # The entropy of fusion follows the heat of fusion (as in `_init_data`)
+        if self._Tm: reset_energy_constant(self, 'Sfus', self._Hfus / self._Tm)
     
     @property
     def Sfus(self):
